@@ -1073,7 +1073,7 @@ func (e *c13env) malformed(rng *Rng, n int) {
 			}
 			return -1
 		}
-		kind := rng.Intn(16)
+		kind := rng.Pick(0, 1, 2, 3, 4, 5, 6, 7, 8, 9, 10, 11, 11, 11, 12, 13, 14, 15)
 		name := k.name
 		want := ""
 		switch kind {
@@ -1128,7 +1128,13 @@ func (e *c13env) malformed(rng *Rng, n int) {
 			if y := find(k.name + ".kd"); y != nil {
 				d := *y
 				d.value = sp.roAddr
-				d.size = uint64(rng.Pick(64, 32))
+				d.size = uint64(rng.Pick(64, 64, 32))
+				switch rng.Intn(3) {
+				case 1: // first match lives outside .rodata: the search stops there
+					d.shndx = uint16(secIdx(".text") + 1)
+				case 2: // first match is out of range: the search stops there too
+					d.value = sp.roAddr + uint64(len(sp.ro))
+				}
 				o.syms = append([]c13sym{d}, o.syms...)
 			}
 		case 12:
